@@ -93,6 +93,23 @@ pub fn run(args: &[String]) -> i32 {
             }
             0
         }
+        Some("textgen") => {
+            let n: usize = args.get(1).and_then(|s| s.parse().ok()).unwrap_or(100);
+            let mut seed: u64 = args.get(2).and_then(|s| s.parse().ok()).unwrap_or(1);
+            let mut shown = 0;
+            for _ in 0..n {
+                let data: Vec<u32> = (0..80).map(|_| lcg(&mut seed)).collect();
+                let mut t = Tape::new(&data);
+                let (text, _) = crate::gen::textgen::well_formed(&mut t, false);
+                if let Err(e) = crate::lexer::lex_opts(&text, true) {
+                    if shown < 5 {
+                        println!("{:?}: {:?}", e, text);
+                        shown += 1;
+                    }
+                }
+            }
+            0
+        }
         Some("parsek") => {
             // parsek <file> <capacity|inf> <reckey 0|1>
             let text = std::fs::read_to_string(&args[1]).unwrap();
